@@ -290,7 +290,10 @@ def replay_case(args):
     def replay_history():
         """one real object, the calls of rec["hist"] in order, compared with the spec's state after every call"""
         nonlocal ncalls
-        obj, _ = build()
+        try:
+            obj, _ = build()
+        except Exception as e:  # noqa - the harness could not even construct the object
+            return [("M", "build", "could not build the object under test: %r (%r)" % (e, case), case)], 0
         ob0 = observe(obj)
         if not world_ok(ob0, rec["world"]):
             return [("M", "build", "the WCS built by the harness does not have the spec's linear stage: %r" % (case,), case)], 1
@@ -500,7 +503,7 @@ def run(ctx):
     hh = history_headers(hdrs)
     MAXHIST = 4 if ctx.quick else 5
     hist_recs = []
-    for kinds, hd, ws, hs in ((["image", "desc"], hh, [3], heights[-2:]), (["pil"], hh[::3], [3], heights[-1:])):
+    for kinds, hd, ws, hs in ((["image", "desc"], hh, widths[-1:], heights[-2:]), (["pil"], hh[::3], widths[-1:], heights[-1:])):
         r = ctx.tlc("MCParity", extra={"MCParity.tla": mc_module(kinds, ws, hs, hd, refx[:1], refy[:2], MAXHIST)},
                     cfg_text=CFG % MAXHIST, workers=8, timeout=3000)
         got = r.json_lines("H")
